@@ -19,6 +19,7 @@ mutual
 def cdE : Expr → Nat
   | .grouped _ e => cdE e + 1
   | .pre _ _ _ e => cdE e + 1
+  | .cast _ _ e => cdE e + 1
   | .infix _ _ _ l r => max (cdE l) (cdE r) + 1
   | .ifE _ _ c t (some e) => max (cdE c) (max (cdB t) (cdB e)) + 1
   | .call _ _ (.member _ _ b _ _) args _ => max (cdE b + 2) (cdArgs args + args.length + 2)
@@ -547,6 +548,13 @@ theorem compile_gexpr (fr : Bool) : ∀ (fuel : Nat),
             (rw [compileExpr, cgE]
              refine bind_run _ _ _ _ _ _ h1 ?_
              rw [emit_run_S, List.append_assoc]; rfl)
+        case cast sp ty e =>
+          simp only [Bool.and_eq_true] at hok
+          simp only [Frag.cdE] at hd
+          have h1 := ihE fuel (Nat.le_refl _) e cs hok.2 (by omega) L c0 env hws
+          rw [compileExpr, cgE]
+          refine bind_run _ _ _ _ _ _ h1 ?_
+          rw [emit_run_S, List.append_assoc]
         case «infix» sp ty op l r =>
           simp only [Frag.pureE] at hp
           simp only [Frag.pureE, Bool.or_eq_true, Bool.and_eq_true] at hok
